@@ -1,8 +1,127 @@
 import IrVerif.Drive.Util
 import IrVerif.Model.Pack
+import IrVerif.Model.TensorRepr
 open Lean IrVerif.Drive
 namespace IrVerif.Drive.Pack
-open IrVerif.Pack
+open IrVerif.Pack IrVerif.TensorRepr
+
+/-! Protocol handler for the C04 models: `pack.*` (Model/Pack.lean) and `trepr.*`
+(Model/TensorRepr.lean).  Element types travel as their integer codes. -/
+
+def getOptNat (j : Json) (k : String) : Except String (Option Nat) :=
+  match j.getObjVal? k with
+  | .ok .null => pure none
+  | .ok v => do let n : Nat ← fromJson? v; pure (some n)
+  | .error _ => pure none
+
+def getOptNats (j : Json) (k : String) : Except String (Option (List Nat)) :=
+  match j.getObjVal? k with
+  | .ok .null => pure none
+  | .ok v => do let a : Array Nat ← fromJson? v; pure (some a.toList)
+  | .error _ => pure none
+
+def getNatsD (j : Json) (k : String) : Except String (List Nat) := do
+  return (← getOptNats j k).getD []
+
+def getIntsD (j : Json) (k : String) : Except String (List Int) :=
+  match j.getObjVal? k with
+  | .ok .null => pure []
+  | .ok v => do let a : Array Int ← fromJson? v; pure a.toList
+  | .error _ => pure []
+
+def getDType (j : Json) (k : String) : Except String DType := do
+  let c ← getNat j k
+  match DType.ofCode c with
+  | some d => pure d
+  | none => throw s!"not an element type code: {c}"
+
+def protoOfJson (j : Json) : Except String Proto := do
+  let ext ← match j.getObjVal? "ext" with
+    | .ok .null => pure none
+    | .ok e => do pure (some ((← getOptNat e "offset"), (← getOptNat e "length")))
+    | .error _ => pure none
+  return { dataType := ← getNat j "d", dims := ← getNats j "dims", rawData := ← getOptNats j "raw",
+           int32Data := ← getIntsD j "i32", int64Data := ← getIntsD j "i64",
+           uint64Data := ← getNatsD j "u64", floatData := ← getNatsD j "f32",
+           doubleData := ← getNatsD j "f64", external := ext }
+
+partial def repOfJson (j : Json) : Except String Rep := do
+  match ← getStr j "k" with
+  | "array" => return .array (← getDType j "d") (← getNats j "dims") (← getNats j "elems")
+  | "torch" => return .torch (← getDType j "d") (← getNats j "dims") (← getNats j "elems")
+  | "packed" =>
+    return .packed { dtype := ← getDType j "d", dims := ← getNats j "dims", raw := ← getNats j "raw" }
+  | "proto" => return .proto (← protoOfJson j)
+  | "external" =>
+    return .external { dtype := ← getDType j "d", dims := ← getNats j "dims",
+                       offset := ← getOptNat j "offset", length := ← getOptNat j "length" }
+                     (← getOptNats j "file")
+  | "lazy" => return .lazy (← getDType j "d") (← getNats j "dims") (← repOfJson (← j.getObjVal? "inner"))
+  | k => throw s!"unknown representation kind {k}"
+
+def optNatJ : Option Nat → Json
+  | some n => toJson n
+  | none => Json.null
+
+def optNatsJ : Option (List Nat) → Json
+  | some xs => natsJ xs
+  | none => Json.null
+
+def protoJ (p : Proto) : Json :=
+  obj [("k", Json.str "proto"), ("d", toJson p.dataType), ("dims", natsJ p.dims),
+       ("raw", optNatsJ p.rawData), ("i32", intsJ p.int32Data), ("i64", intsJ p.int64Data),
+       ("u64", natsJ p.uint64Data), ("f32", natsJ p.floatData), ("f64", natsJ p.doubleData),
+       ("ext", match p.external with
+               | some (o, l) => obj [("offset", optNatJ o), ("length", optNatJ l)]
+               | none => Json.null)]
+
+def rJ {α : Type} (f : α → Json) : R α → Json
+  | .ok a => f a
+  | .error e => obj [("raised", Json.str e)]
+
+def destOfJson (j : Json) : Except String Dest := do
+  return { img := ← getNats j "img", pos := ← getNat j "pos", append := ← getBool j "append" }
+
+def observe (r : Rep) (dest : Option Dest) : Json :=
+  let base : List (String × Json) :=
+    [("dtype", rJ (fun d => toJson d.code) r.dtype), ("shape", natsJ r.shape),
+     ("nbytes", rJ (fun (n : Nat) => toJson n) r.nbytes), ("numpy", rJ natsJ r.numpy),
+     ("tobytes", rJ natsJ r.tobytes),
+     ("tofile", rJ (fun (p : List Nat × Bool) => obj [("bytes", natsJ p.1), ("raised", toJson p.2)])
+                  r.tofile),
+     ("serialize", rJ protoJ (serialize r))]
+  let d : List (String × Json) := match dest with
+    | none => []
+    | some f => [("dest", rJ (fun (p : Dest × Bool) =>
+        obj [("img", natsJ p.1.img), ("pos", toJson p.1.pos), ("raised", toJson p.2)]) (r.tofileAt f))]
+  obj (base ++ d)
+
+def codesJ (p : DType → Bool) : Json := natsJ ((DType.all.filter p).map DType.code)
+
+def optStrJ : Option String → Json
+  | some s => Json.str s
+  | none => Json.null
+
+def tables : Json :=
+  obj [("members", Json.arr ((DType.all.zip DType.names).map
+          (fun (d, n) => obj [("code", toJson d.code), ("name", Json.str n)])).toArray),
+       ("bitwidth", Json.arr (DType.bitwidthTable.map
+          (fun (d, b) => Json.arr #[toJson d.code, toJson b])).toArray),
+       ("np", Json.arr (DType.npTable.map
+          (fun (s, d) => Json.arr #[Json.str s, toJson d.code])).toArray),
+       ("np_itemsize", Json.arr (DType.npItemsizeTable.map
+          (fun (s, b) => Json.arr #[Json.str s, toJson b])).toArray),
+       ("short", Json.arr (DType.shortNameTable.map
+          (fun (d, s) => Json.arr #[toJson d.code, Json.str s])).toArray),
+       ("per_type", Json.arr (DType.all.map (fun d =>
+          obj [("code", toJson d.code), ("bitwidth", optNatJ d.bitwidth),
+               ("np_name", optStrJ d.npName), ("short_name", optStrJ d.shortName),
+               ("from_short", optNatJ ((d.shortName.bind DType.ofShortName).map DType.code)),
+               ("from_np", optNatJ ((d.npName.bind DType.ofNpName).map DType.code)),
+               ("np_itembytes", toJson (npItemBytes d)),
+               ("is_floating_point", toJson d.isFloatingPoint), ("is_integer", toJson d.isInteger),
+               ("is_signed", toJson d.isSigned)])).toArray),
+       ("torch_mapped", codesJ DType.torchMapped)]
 
 def handle : Handler := fun m j =>
   match m with
@@ -12,6 +131,20 @@ def handle : Handler := fun m j =>
   | "pack.unpack2" => some do return obj [("r", natsJ (unpack2 (← getNats j "bs") (← getNat j "n")))]
   | "pack.nbytes" => some do return obj [("r", toJson (nbytes (← getNat j "size") (← getNat j "bw")))]
   | "pack.tobytes" => some do return obj [("r", natsJ (tobytes (← getNat j "bw") (← getNats j "xs")))]
+  | "trepr.tables" => some (pure tables)
+  | "trepr.obs" => some do
+      let r ← repOfJson (← j.getObjVal? "repr")
+      let dest ← match j.getObjVal? "dest" with
+        | .ok .null => pure none
+        | .ok d => do pure (some (← destOfJson d))
+        | .error _ => pure none
+      return observe r dest
+  | "trepr.deserialize" => some do
+      let p ← protoOfJson (← j.getObjVal? "proto")
+      let file ← getOptNats j "file"
+      return rJ (fun r => observe r none) (deserialize p file)
+  | "trepr.packle" => some do
+      return obj [("r", natsJ (packLE (← getNat j "bw") (← getNats j "xs")))]
   | _ => none
 
 end IrVerif.Drive.Pack
